@@ -217,6 +217,8 @@ def run_segment(seg):
             args = eval(ent.get("args_src", "()"), ns)
             kwargs = eval(ent.get("kwargs_src", "{}"), ns)
             opts = dict(ent.get("options") or {})
+            if opts.get("dds_export_graph") == "@root":
+                opts["dds_export_graph"] = os.path.join(root, "graph_export.dot")
             if mode == "impl" and opts.get("dds_stages") is not None:
                 opts["dds_stages"] = [dds.ProcessingStage[x[5:]] if isinstance(x, str) and x.startswith("ENUM:") else x for x in opts["dds_stages"]]
             style = ent["style"]
